@@ -82,10 +82,12 @@ func WorkerMain(check Check, args []string) int {
 	}
 	debug.SetMaxStack(256 << 20)
 	// a runaway case must die in this worker, not take the sandbox down
-	lim := uint64(envInt("VERIF_WORKER_MEM_MB", 6144)) << 20
-	syscall.Setrlimit(syscall.RLIMIT_AS, &syscall.Rlimit{Cur: lim, Max: lim})
-	if os.Getenv("VERIF_WORKER_PROCS") == "" {
-		runtime.GOMAXPROCS(1)
+	if !RaceEnabled { // the race detector reserves terabytes of address space
+		lim := uint64(envInt("VERIF_WORKER_MEM_MB", 6144)) << 20
+		syscall.Setrlimit(syscall.RLIMIT_AS, &syscall.Rlimit{Cur: lim, Max: lim})
+	}
+	if n := envInt("VERIF_WORKER_PROCS", 1); n > 0 {
+		runtime.GOMAXPROCS(n)
 	}
 	if os.Getenv("GOGC") == "" {
 		debug.SetGCPercent(50)
@@ -163,7 +165,11 @@ func runJob(check Check, o *Options, dir string, id int, j job) jobResult {
 		strconv.FormatInt(j.from, 10), strconv.FormatInt(j.to, 10), out, jr)
 	cmd.Stdout = ef
 	cmd.Stderr = ef
-	cmd.Env = append(os.Environ(), "GOTRACEBACK=all")
+	cmd.Env = append(os.Environ(), "GOTRACEBACK=all",
+		"GORACE=halt_on_error=0 log_path="+filepath.Join(dir, fmt.Sprintf("race-job%d", id)))
+	if j.w.Procs > 0 {
+		cmd.Env = append(cmd.Env, fmt.Sprintf("VERIF_WORKER_PROCS=%d", j.w.Procs))
+	}
 	timeout := defaultBatchTimeout
 	if j.w.BatchTimeoutS > 0 {
 		timeout = time.Duration(j.w.BatchTimeoutS) * time.Second
@@ -209,6 +215,11 @@ func runJob(check Check, o *Options, dir string, id int, j job) jobResult {
 	os.Remove(out)
 	os.Remove(jr)
 	os.Remove(errf)
+	if m, _ := filepath.Glob(filepath.Join(dir, fmt.Sprintf("race-job%d.*", id))); len(m) > 0 {
+		for _, f := range m {
+			os.Remove(f)
+		}
+	}
 	return res
 }
 
@@ -226,6 +237,11 @@ func Run(check Check, o *Options) int {
 		o.Workers = envInt("VERIF_WORKERS", n)
 	}
 	plan := check.Plan(o.Tier, o.Seed)
+	for _, w := range plan {
+		if w.MaxWorkers > 0 && w.MaxWorkers < o.Workers {
+			o.Workers = w.MaxWorkers
+		}
+	}
 	os.RemoveAll(filepath.Join(o.Root, "replays", id))
 	total := NewResult()
 	var notes []string
